@@ -81,10 +81,10 @@ ADDED = {
  "C01": "Added since: name-relation families (case / normalisation twins; names that spell another node's path), path-spelling collisions, equal siblings, related-value pairs (integer / float / string spellings, literals, empty containers), count sweep 0..40 and around 64 / 128 / 256, length sweep around 256 / 1 K / 4 K / 16 K, cnf as a user claim, iat value shapes, 16 issuer-identifier shapes, a holder key with a leading-zero coordinate, the holder's key as a user claim under confirmation-like names; every holder-made KB-JWT and every issuer-signed JWT is also checked as a JWS without the library.",
  "C02": "Added since: shared-kid confusion; the resolver must be shown exactly the token's header and asked for exactly its iss, over 12 related (iss, kid) pairs (DID URLs, key URLs below / beside the issuer's, mixed case, prefix twins); signature re-encodings (ASN.1 DER, extra zero octet, hex, padded base64, doubled).",
  "C03": "Added since: an absent genuine disclosure in the key-binding slot (JSON: also followed by '~'; two joined by '~' as one element); credentials with hidden values of 1100..3000 characters.",
- "C04": "Added since: 10 expectations (3 with the empty string); nonce / aud of every 'empty-like' shape; attacker keys embedded in the KB header; re-encoded KB signatures; a 40 x 40 aud / nonce alphabet with full cross product; the keyless credential carries the holder's key as sub_jwk / jwk and is offered KB-JWTs that would be right if that confirmed it; thorough adds a world with a leading-zero-coordinate holder key.",
+ "C04": "Added since: 10 expectations (3 with the empty string); nonce / aud of every 'empty-like' shape; attacker keys embedded in the KB header; re-encoded KB signatures; a 42 x 42 aud / nonce alphabet (values up to 6 K characters) with full cross product; the keyless credential carries the holder's key as sub_jwk / jwk and is offered KB-JWTs that would be right if that confirmed it; thorough adds a world with a leading-zero-coordinate holder key.",
  "C05": "Added since: 56 malformed / dangling paths incl. library-owned names ($.cnf, $._sd_alg, ...) and JSONPath wildcards / filters / slices; path-list permutations / duplicates / all notations; ASCII punctuation and the empty string as names under Custom; names beginning like iss / iat / exp or ending like a reserved key; equal siblings; related-value pairs; count sweep; 16 issuer-identifier shapes; iat value shapes; leading-zero-coordinate holder key; confirmation-like user claims; independent JWS check of the issuer-signed JWT. Thorough: S(6,4).",
  "C06": "Added since: over-long selections padded with nested selections; 36 credentials laid out by another implementation (number spellings that do not survive re-serialization, pretty-printed / reordered / escaped payloads): byte-identical JWT, spec-conforming verified claims; every holder-made KB-JWT checked without the library (JWS under the holder key, typ, nonce, aud, numeric iat, sd_hash over the presented sequence).",
- "C07": "Added since: single-key selections; alignment strings (a multi-byte character at every byte offset 0..16) in every header / claim / KB field; disclosures, payloads, headers and envelope members nested 129..3000 levels built as text, each run on a 2 MiB thread; caller-supplied cnf of every JSON type with and without a holder key; API argument combinations; deep chains (to depth 63) with a reserved name at the bottom; cnf of every shape with a well-formed KB-JWT; credentials on the edge of the leeway; the library runs with a logger installed at Trace; a 20 s per-case limit when a block is replayed.",
+ "C07": "Added since: single-key selections; alignment strings (a multi-byte character at every byte offset 0..16) in every header / claim / KB field; disclosures, payloads, headers and envelope members nested 129..3000 levels built as text, each run on a 2 MiB thread; caller-supplied cnf of every JSON type with and without a holder key; API argument combinations; deep chains (to depth 63) with a reserved name at the bottom; cnf of every shape with a well-formed KB-JWT; non-JWT key-binding strings with a multi-byte character at every offset 0..40; credentials on the edge of the leeway; the library runs with a logger installed at Trace; a 20 s per-case limit when a block is replayed.",
  "C08": "Now 12 bases (incl. zero / one disclosure, null and empty siblings, a clear cnf with a hidden member); added deviations: respelled digests, strings of non-digest shape once / twice / across kinds, twin disclosures (same name and value as a visible or hidden sibling), keys written with \\u escapes, no disclosure presented at all. Thorough: every triple.",
  "C09": "Now 28 exp x 14 nbf values (negative and fractional instants included); a resolution sweep (quick: every minute of an hour and every day of a month on both sides; thorough: every second of an hour, every hour of two days, every day of 400, every year of 50); harness-signed KB-JWTs with back-dated / absent / future iat on every must-reject point; credentials that speak of other times verified just before every in-window point.",
  "C10": "Added since: renderings with every string \\u-escaped and pretty-printed with surrounding whitespace (verification and holders built from them); a header member carrying foreign disclosures; every JWT segment padded / in the standard alphabet / percent-encoded / with blanks; holder construction compared across formats.",
@@ -93,7 +93,7 @@ ADDED = {
  "C13": "Now 27 look-alike names (incl. names whose serialized form ends like a reserved key, case variants); single-path chains of depth 4..20 with the name at the bottom. Thorough: S(6,4).",
  "C14": "Added since: burst configurations; path-spelling names; histories alternating compact / JSON; thread generations (a thread ends before the next starts); every base64url character at every position of the salt text and every byte value at every position of the decoded salt must occur (auxiliary).",
  "C15": "Added since: decoys on; holders built from presentations whose array elements were withheld, with false / null at those positions.",
- "C16": "Added since: queues mixing spec-style, short, long and non-base64url salts; a constant and an alternating queue (round trip asserted whenever the disclosure texts differ); related-value pairs; same-instance issuance.",
+ "C16": "Added since: queues mixing spec-style, short, long and non-base64url salts; a constant and an alternating queue (round trip asserted whenever the disclosure texts differ); related-value pairs; same-instance issuance; Custom path lists longer than the set of claims they hide.",
 }
 
 
